@@ -40,6 +40,8 @@ type Profile struct {
 	Own        []string // violation classes of the property being checked: only these (and a diverged reference) end a run
 	InodeExhaust bool // fill the inode table first (thorough tier of C08/C09)
 	DeleteAll  bool // C05: delete everything at the end; only the root may remain
+	ManyBigFrees bool // C05: more big frees in flight at once than any plausible cap on background threads
+	HighBlocks bool // first push the next-fit block allocator beyond block 32768 (second bitmap block); needs DiskBlocks > 34000
 	DeadOnly   bool // bad handles are dead handles of this session only (other sessions share the server)
 }
 
@@ -831,6 +833,12 @@ func runSeq(p Profile, seed uint64, cas int) *SeqRes {
 	if p.InodeExhaust {
 		s.exhaustInodes()
 	}
+	if p.HighBlocks {
+		s.advanceAllocator()
+	}
+	if p.ManyBigFrees {
+		s.manyBigFrees()
+	}
 	if p.NearFull {
 		s.fillDisk()
 	}
@@ -932,6 +940,76 @@ func (s *Sess) prepopulate(n int) {
 	for i := 0; i < n; i += 15 {
 		s.exec(&Op{K: OpRemove, H: bigfh, Name: fmt.Sprintf("o%03d", i)})
 	}
+}
+
+// advanceAllocator fills the part of the disk that the first block of the
+// block bitmap describes (blocks < 32768) with one live file, so that
+// everything the sequence allocates afterwards - before and after restarts -
+// lives in the part described by the second bitmap block.
+func (s *Sess) advanceAllocator() {
+	r := s.exec(&Op{K: OpCreate, H: s.srv.Root, Name: "lowfill"})
+	if r.Stat != stOK {
+		return
+	}
+	st := s.srv.N.VerifFsState()
+	total := 0
+	need := 32768 + 40 - int(st.Super.DataStart()) - 2*len(s.m.LiveObjs()) // data + index blocks below block 32768 that are still free (roughly)
+	for k := 0; k < 600 && total+total/512+70 < need; k++ {
+		s.nextUid++
+		n := uint32(64 * BlockSize)
+		w := s.exec(&Op{K: OpWrite, H: r.FH, Off: uint64(k) * uint64(n), Count: n, DataLen: n, Uid: s.nextUid, Stable: 0})
+		if w.Stat != stOK {
+			break
+		}
+		total += 64
+	}
+	s.exec(&Op{K: OpCommit, H: r.FH})
+	s.res.Stats.Add(fmt.Sprintf("low-32768-blocks-filled-with/%d", total/1000*1000))
+}
+
+// manyBigFrees: several files that are too big to be freed inside the
+// removing transaction are removed (or truncated, or overwritten by a rename)
+// back to back, so that all their background frees are in flight together;
+// once the server is idle everything must have been given back.
+func (s *Sess) manyBigFrees() {
+	root := s.srv.Root
+	st := s.srv.N.VerifFsState()
+	s.srv.WaitIdle()
+	free0 := st.Balloc.NumFree()
+	const nfiles = 7
+	var fhs [][]byte
+	for i := 0; i < nfiles; i++ {
+		r := s.exec(&Op{K: OpCreate, H: root, Name: fmt.Sprintf("bigfree%d", i)})
+		if r.Stat != stOK {
+			return
+		}
+		fhs = append(fhs, r.FH)
+		for k := 0; k < 9; k++ {
+			s.nextUid++
+			n := uint32(64 * BlockSize)
+			s.exec(&Op{K: OpWrite, H: r.FH, Off: uint64(k) * uint64(n), Count: n, DataLen: n, Uid: s.nextUid, Stable: 0})
+		}
+	}
+	s.exec(&Op{K: OpCreate, H: root, Name: "small"})
+	for i := 0; i < nfiles; i++ {
+		switch i % 3 {
+		case 0, 1:
+			s.exec(&Op{K: OpRemove, H: root, Name: fmt.Sprintf("bigfree%d", i)})
+		case 2:
+			s.exec(&Op{K: OpSetattr, H: fhs[i], SetSize: true, Size: 0})
+		}
+	}
+	s.srv.WaitIdle()
+	s.fullCheck("dump", "after seven big frees in flight together")
+	for i := 2; i < nfiles; i += 3 {
+		s.exec(&Op{K: OpRemove, H: root, Name: fmt.Sprintf("bigfree%d", i)})
+	}
+	s.exec(&Op{K: OpRemove, H: root, Name: "small"})
+	s.srv.WaitIdle()
+	if f := st.Balloc.NumFree(); f != free0 {
+		s.viol("leak", "seven big files created and freed together: %d blocks free before, %d after all background freeing has finished", free0, f)
+	}
+	s.res.Stats.Add("seven-big-frees-in-flight")
 }
 
 // fillDisk leaves only a handful of free blocks.
